@@ -581,6 +581,8 @@ def blocks_by(lines, is_start):
 
 
 def block_label(block):
+    if block and block[0].strip().startswith('tag_'):
+        return ' '.join(block[0].split())[:60]
     for ln in block:
         if 'dw_at_name' in ln and ':' in ln:
             return ln.rsplit(':', 1)[1].strip()
@@ -863,6 +865,54 @@ def dw_tables():
             return oracles.wrap_debug({'.eh_frame' if eh else '.debug_frame': sec, '.debug_info': unit, '.debug_abbrev': ab},
                                       True, cls=cls, machine=machine), n
         return b
+    # build attributes: every (tag, value) the clone has a description for, all in one file-scope subsection
+    import elftools.elf.descriptions as ED
+    import elftools.elf.enums as EE
+
+    def attr_table(arch):
+        def b():
+            if arch == 'arm':
+                tags, vals, vendor, mach, secname, styp = EE.ENUM_ATTR_TAG_ARM, ED._DESCR_ATTR_VAL_ARM, b'aeabi', 40, '.ARM.attributes', 0x70000003
+                ntbs = {4, 5, 67}
+            else:
+                tags, vals, vendor, mach, secname, styp = EE.ENUM_ATTR_TAG_RISCV, ED._DESCR_ATTR_VAL_RISCV, b'riscv', 243, '.riscv.attributes', 0x70000003
+                ntbs = {5}
+            body = b''
+            n = 0
+            for name, t in sorted(tags.items(), key=lambda kv: kv[1]):
+                if t <= 3:
+                    continue
+                d = vals.get(t) if isinstance(vals, dict) else (vals[t - 1] if t - 1 < len(vals) else None)
+                if t in ntbs:
+                    body += uleb(t) + b'text%d\0' % t
+                    n += 1
+                elif isinstance(d, dict):
+                    for v in sorted(d):
+                        body += uleb(t) + uleb(v)
+                        n += 1
+                elif arch == 'arm' and t == 32:
+                    body += uleb(t) + uleb(1) + b'vend\0'
+                    n += 1
+                elif arch == 'arm' and t == 65:
+                    body += uleb(t) + uleb(6) + uleb(10) + b'\0'
+                    n += 1
+                elif arch == 'arm' and t == 64:
+                    continue            # Tag_nodefaults changes the meaning of the rest
+                else:
+                    body += uleb(t) + uleb(1)
+                    n += 1
+            sub = bytes([1]) + struct.pack('<I', 5 + len(body)) + body
+            blk = vendor + b'\0' + sub
+            sec = b'A' + struct.pack('<I', 4 + len(blk)) + blk
+            cls = 32 if arch == 'arm' else 64
+            img = elfgen.build(cls=cls, le=True, machine=mach, etype=1, eflags=0x05000000 if arch == 'arm' else 0,
+                               sections=[elfgen.Sec('.text', 1, flags=6, data=b'\0' * 4), elfgen.Sec(secname, styp, data=sec)])[0]
+            return img, n
+        return b
+    is_tag = lambda ln: ln.strip().startswith('tag_')
+    T.append(('attributes/arm', '-A', attr_table('arm'), is_tag))
+    T.append(('attributes/riscv', '-A', attr_table('riscv'), is_tag))
+
     is_cfa = lambda ln: ln.strip().startswith('dw_cfa_') or 'cie' in ln or 'fde' in ln
     T.append(('DW_CFA/x86-64', '--debug-dump=frames', cfa_table(62, False), is_cfa))
     T.append(('DW_CFA/x86-64-eh', '--debug-dump=frames', cfa_table(62, True), is_cfa))
